@@ -62,6 +62,16 @@ pub fn jobs(seed: u64, thorough: bool, bad_only: bool) -> Vec<Job> {
             let wide = vec![vec![0.01]];
             let (raw, panic) = run_chain::<B64, f64, _>(GaussP { prec: wide.clone() }, vec![0.3], 0.8, sd + 5, &[(3, 0)], Some(0.02));
             out.push(Job { label: "deep-tree/f64".into(), raw, panic, own: OwnN::GaussP { prec: wide }, tol: 1e-7 });
+            // cliffs without forces: scripted slice holes / isolated admissible points / divergence walls along straight trajectories
+            for (k, (cell, levels, omega2, eps0)) in [
+                (1.5, vec![0.0, -0.7, 0.0, -30.0, 0.0, 0.0, -1.5, 0.0], 0.25, 0.3),
+                (0.8, vec![0.0, -40.0, -40.0, 0.0, -0.3, -40.0, 0.0, -2.0, -40.0], 0.04, 0.4),
+                (2.5, vec![0.0, 0.0, -1.0, 0.0, 0.0, -0.2, 0.0, 0.0, 0.0, -5000.0], 0.09, 0.5),
+            ].into_iter().enumerate() {
+                let t = Cliffs { cell, levels: levels.clone(), omega2, kappa: 0.02 };
+                let (raw, panic) = run_chain::<B64, f64, _>(t, vec![0.3 * cell, 0.4], 0.8, sd + 20 + k as u64, &[(steps.0 + 14, 0)], Some(eps0));
+                out.push(Job { label: format!("cliffs{k}/f64"), raw, panic, own: OwnN::Cliffs { cell, levels, omega2, kappa: 0.02 }, tol: 1e-7 });
+            }
             // immediate U-turn: very narrow Gaussian, big forced step
             let narrow = vec![vec![400.0, 0.0], [0.0, 400.0].to_vec()];
             let (raw, panic) = run_chain::<B64, f64, _>(GaussP { prec: narrow.clone() }, vec![0.01, -0.02], 0.8, sd + 6, &[(6, 0)], Some(0.09));
